@@ -680,6 +680,11 @@ fn c10_preempt(pipes: &[Pipe], nops: usize, max_preempt: u32) {
 }
 
 fn c10_preempt_x(pipes: &[Pipe], nops: usize, max_preempt: u32, sample_closed: bool) {
+  c10_preempt_xx(pipes, nops, nops, max_preempt, sample_closed)
+}
+
+/// `nops0` operations for T0 (the worker where there is one), `nops` for T1
+fn c10_preempt_xx(pipes: &[Pipe], nops0: usize, nops: usize, max_preempt: u32, sample_closed: bool) {
   EMITTED.with(|x| x.borrow_mut().clear());
   let p = pipes[e::choose(pipes.len() as u32) as usize];
   let rig = build(p);
@@ -690,7 +695,7 @@ fn c10_preempt_x(pipes: &[Pipe], nops: usize, max_preempt: u32, sample_closed: b
   let mut desc = vec![];
   let mut script: Vec<Vec<TOp>> = vec![vec![], vec![]];
   for t in 0..2 {
-    for _ in 0..nops {
+    for _ in 0..(if t == 0 { nops0 } else { nops }) {
       // the pool has one worker: only T0 ticks the clock and polls (two threads ticking would make "advance, then
       // poll" non-atomic in a way no serial order of whole ticks reproduces: a delayed poll is not a defect)
       let one_worker = RATE_PIPES.contains(&p) || MOVE_PIPES.contains(&p);
@@ -951,7 +956,7 @@ pub fn harnesses() -> Vec<HarnessDef> {
   add("c05_threads_iter", vec!["C05", "C16"], "flat_map_threads over a hot inner and a synchronous from_iter inner: another thread terminates the output while the iterator inner is emitting; it must stop pulling (no blocking on an unbounded iterator)", |_| "2 threads x 2 operations, <= 3 pre-emptions".to_string(), Box::new(|_| c10_preempt(&[Pipe::FlatMapIter], 2, 3)), 3_000_000, 40_000_000);
   add("c02_threads_sched", vec!["C02", "C19", "C17"], "a pool worker thread polling scheduled tasks (subscribe_on / delay_subscription over a synchronous source, observe_on_threads, delay_threads, interval) racing an unsubscribing thread at every lock acquisition and inside callbacks", |_| "5 pipelines; worker: 3 executor steps; 1 unsubscribe; <= 3 pre-emptions".to_string(), Box::new(|_| c02_threads_sched()), 3_000_000, 40_000_000);
   add("c09_threads_preempt", vec!["C09", "C10"], "buffer_with_time, buffer_with_count_and_time, sample(interval), throttle(all), debounce on a thread-safe source: the pool worker's timer callbacks race the source thread at every lock acquisition and inside callbacks; monitors + serialisability (no item or final buffer may be lost while a tick is being delivered)", |t| format!("7 rate-limiting pipelines; 2 threads x {} operations from next/complete/error/unsubscribe/clock tick + poll; <= 3 pre-emptions", if t { 3 } else { 2 }), Box::new(|t| c10_preempt(RATE_PIPES, if t { 3 } else { 2 }, 3)), 3_000_000, 40_000_000);
-  add("c07_threads_preempt", vec!["C07", "C10"], "observe_on_threads / delay_threads with the pool worker (FIFO) polling on one logical thread while the source emits on the other: monitors + serialisability (no item or terminal lost, duplicated or reordered by the race)", |t| format!("2 pipelines; 2 threads x {} operations from next/complete/error/unsubscribe/clock tick + poll; <= 3 pre-emptions", if t { 3 } else { 2 }), Box::new(|t| c10_preempt(MOVE_PIPES, if t { 3 } else { 2 }, 3)), 3_000_000, 40_000_000);
+  add("c07_threads_preempt", vec!["C07", "C10"], "observe_on_threads / delay_threads with the pool worker (FIFO) polling on one logical thread while the source emits on the other: monitors + serialisability (no item or terminal lost, duplicated or reordered by the race)", |t| format!("2 pipelines; T0 (worker + producer) 3 operations, T1 {} from next/complete/error/unsubscribe; clock +1 / poll one task are separate worker operations; <= 3 pre-emptions", if t { 3 } else { 2 }), Box::new(|t| c10_preempt_xx(MOVE_PIPES, 3, if t { 3 } else { 2 }, 3, false)), 3_000_000, 40_000_000);
   add("c17_threads", vec!["C17", "C10"], "is_closed() asked on the returned handle by one logical thread while the other is emitting or terminating (and around unsubscribe()): once it answered true, no notification may start, whatever is still in flight", |_| "10 thread-safe pipelines incl. last(); 2 threads x 2 operations; <= 3 pre-emptions".to_string(), Box::new(|_| c10_preempt_x(C17_PIPES, 2, 3, true)), 3_000_000, 40_000_000);
   add("c04_threads_preempt", vec!["C04", "C10"], "the two-input _threads combinators with their two inputs driven by two logical threads: monitors + serialisability (a terminal of one input must not be lost or duplicated while the other input is delivering)", |_| "merge, zip, combine_latest, with_latest_from, take_until, skip_until, sample _threads; 2 threads x 2 operations; <= 3 pre-emptions".to_string(), Box::new(|_| c10_preempt(&[Pipe::Merge, Pipe::Zip, Pipe::CombineLatest, Pipe::WithLatestFrom, Pipe::TakeUntil, Pipe::SkipUntil, Pipe::Sample], 2, 3)), 3_000_000, 40_000_000);
   add("c06_threads", vec!["C06"], "SubjectThreads under two logical threads: every subscriber's log stays well-formed and all subscribers agree on the order", |t| format!("2 threads x {} operations", if t { 3 } else { 2 }), Box::new(|t| c10_preempt(&[Pipe::Subject], if t { 3 } else { 2 }, 3)), 3_000_000, 40_000_000);
